@@ -59,7 +59,7 @@ DEG = {
     'da_plot': {'pore_volume': 1, 'adsorption_potential': 0, 'corr_coef': 0, 'slope': 0, 'intercept': None, 'p_limits': 0, 'exponent': 0},
     'psd_mesoporous': {'pore_widths': 0, 'pore_areas': 1, 'pore_volumes': 1, 'pore_distribution': 1, 'pore_volume_cumulative': 1, 'limits': 0, 'pore_area_total': 1},
     'psd_microporous': {'pore_widths': 0, 'pore_distribution': 1, 'pore_volume_cumulative': 1, 'limits': 0},
-    'psd_dft': {'pore_widths': 0, 'pore_distribution': 1, 'pore_volume_cumulative': 1, 'kernel_loading': 1, 'limits': 0},
+    'psd_dft': {'pore_widths': 0, 'pore_distribution': 1, 'pore_volume_cumulative': 1, 'kernel_loading': 1, 'limits': 0, 'acquired_pressure': 0, 'acquired_loading': 1},
     'initial_henry_slope': {'value': 1}, 'initial_henry_virial': {'value': 1},
     'isosteric_enthalpy': {'loading': 1, 'isosteric_enthalpy': 0, 'slopes': 0, 'correlation': 0, 'std_errs': 0},
 }
@@ -75,14 +75,16 @@ def synthetic(kind):
     """synthetic nitrogen isotherms at 77.355 K (relative pressure, mmol/g) with known generating parameters"""
     import pygaps
     if kind == 'bet':
-        p = np.array([0.005, 0.01, 0.02, 0.04, 0.06, 0.08, 0.1, 0.13, 0.16, 0.2, 0.25, 0.3, 0.35, 0.4, 0.5, 0.6, 0.7, 0.8, 0.9])
-        n = 2.0 * 80.0 * p / ((1 - p) * (1 - p + 80.0 * p))
+        p = np.array([0.005, 0.01, 0.02, 0.04, 0.06, 0.08, 0.1, 0.13, 0.16, 0.2, 0.25, 0.3, 0.35, 0.4, 0.5, 0.6, 0.7, 0.8, 0.9, 0.95])
+        q = p * 1.0137
+        n = 2.0 * 80.0 * q / ((1 - q) * (1 - q + 80.0 * q))
     elif kind == 'langmuir':
         p = np.array([0.001, 0.003, 0.01, 0.02, 0.04, 0.07, 0.1, 0.15, 0.2, 0.3, 0.4, 0.5, 0.6, 0.7, 0.8, 0.9])
-        n = 5.0 * 40.0 * p / (1 + 40.0 * p)
+        n = 5.0 * 40.0 * p * 1.0137 / (1 + 40.0 * p * 1.0137)
     else:  # Dubinin-Astakhov like
         p = np.array([1e-5, 3e-5, 1e-4, 3e-4, 1e-3, 3e-3, 0.01, 0.02, 0.05, 0.1, 0.2, 0.3, 0.5, 0.7, 0.9])
-        n = 10.0 * np.exp(-(8.314 * 77.355 * np.log(1 / p) / 6000.0) ** 2)
+        n = 10.0 * np.exp(-(8.314 * 77.355 * np.log(1 / (p * 1.0137)) / 6000.0) ** 2)
+    p = p * 1.0137       # keep the points off the routines' default pressure limits (0.1, 0.2, ...): a point ON a limit is an ulp lottery
     return pygaps.PointIsotherm(pressure=list(p), loading=list(n), material='verif_c15_' + kind, adsorbate='nitrogen', temperature=77.355,
                                 pressure_mode='relative', loading_basis='molar', loading_unit='mmol', material_basis='mass', material_unit='g')
 
@@ -128,8 +130,28 @@ def flatten(res, prefix=''):
     return out
 
 
+DFT_INPUT = {}
+
+
+def _capture_dft():
+    """record the columns psd_dft hands to the kernel fit (module attribute wrapped from the harness process, no source hook)"""
+    import pygaps.characterisation.psd_kernel as pk
+    if getattr(pk.psd_dft_kernel_fit, '_verif', False):
+        return
+    orig = pk.psd_dft_kernel_fit
+
+    def wrapped(pressure, loading, *a, **k):
+        DFT_INPUT['p'], DFT_INPUT['l'] = np.array(pressure, dtype=float), np.array(loading, dtype=float)
+        return orig(pressure, loading, *a, **k)
+    wrapped._verif = True
+    pk.psd_dft_kernel_fit = wrapped
+
+
 def run_entry(entry, iso, extra=None):
     import pygaps.characterisation as pgc
+    if entry == 'psd_dft':
+        _capture_dft()
+        DFT_INPUT.clear()
     with warnings.catch_warnings():
         warnings.simplefilter('ignore')
         try:
@@ -145,6 +167,9 @@ def run_entry(entry, iso, extra=None):
                 r = getattr(pgc, entry)(iso)
             if not isinstance(r, dict):
                 r = {'value': r}
+            if entry == 'psd_dft' and 'p' in DFT_INPUT:
+                r = dict(r)
+                r['acquired_pressure'], r['acquired_loading'] = DFT_INPUT['p'], DFT_INPUT['l']
             return 'Ok', r
         except Exception as e:  # noqa
             return vlib.exn_class(e), str(e)[:200]
@@ -229,7 +254,7 @@ def correspondence(rep, tier, seed, isos):
                                                                                        ads, flit(TK), ql(coll), ostr(lb), ostr(lu), oc, exp))
                 metas.append(('loading', name, (rp, rl, tu), (lb, lu)))
             for pm, pu in pargs:
-                stub = _Stub(None)
+                stub = _Stub('ads')
                 iso.l_interpolator = stub
                 p = 0.37
                 try:
@@ -258,8 +283,28 @@ def correspondence(rep, tier, seed, isos):
 
 
 # ---------------------------------------------------------------------------------------------- metamorphic validation
+def alphas_sample(iso, ref0):
+    """the sample restricted to pressures well inside the reference's range (alpha_s looks the reference up at EVERY sample pressure)"""
+    import pygaps
+    lo, hi = float(min(ref0.pressure(branch='ads'))), float(max(ref0.pressure(branch='ads')))
+    r = convert(iso, ('relative', None))
+    pr, ld = r.pressure(branch='ads'), r.loading(branch='ads')
+    keep = (pr > lo * 1.001) & (pr < hi * 0.999)
+    d = r.to_dict()
+    for k in ('iso_type', 'id'):
+        d.pop(k, None)
+    return pygaps.PointIsotherm(pressure=list(pr[keep]), loading=list(ld[keep]), **d)
+
+
 def classify(entry, kind, info):
     key = entry.split(':')[0]
+    if key == 'psd_dft' and kind in ('representation', 'scaling') and info.get('inputs_agree'):
+        # the columns handed to the kernel fit agree to 1e-9; the SLSQP / B-spline deconvolution amplifies the last-bit differences
+        return 'C15:psd_dft-fit-sensitive-to-rounding'
+    if key == 'initial_henry_slope' and kind in ('henry-factor', 'scaling') and abs(info.get('lfac', 1.0) - 1.0) > 1e-9:
+        return 'C15:henry-slope-absolute-rmse-threshold'
+    if key == 'initial_henry_virial' and kind in ('henry-factor', 'scaling') and not (0.1 <= info.get('lfac', 1.0) <= 10.0):
+        return 'C15:henry-virial-fit-depends-on-loading-magnitude'
     if key == 'alpha_s' and kind == 'reference':
         rp, rl = info['rp'], info['rl']
         if rp[0] == 'absolute' or info.get('sample_rp', ('relative',))[0] == 'absolute' and rp[0] != 'relative':
@@ -275,6 +320,9 @@ def classify(entry, kind, info):
             return 'C15:isosteric-relative-mode'
         if len(units) > 1:
             return 'C15:isosteric-mixed-pressure-units'
+        if any(r[0] in ('volume_gas', 'volume_liquid') for r in info.get('rls', [])):
+            # equal loadings in a volume basis are not equal amounts at different temperatures (the density is read at each isotherm's T)
+            return 'C15:isosteric-volume-loading-basis'
     return 'C15:unclassified:%s:%s' % (key, kind)
 
 
@@ -298,8 +346,12 @@ def metamorphic(rep, tier, seed, isos):
         out.append((('relative%', None), ('volume_gas', 'L'), 'K'))
         return out
 
+    SYN = {'syn-bet': ('area_BET', 't_plot', 'psd_mesoporous', 'psd_dft', 'initial_henry'), 'syn-langmuir': ('area_langmuir', 'initial_henry'),
+           'syn-da': ('dr_plot', 'da_plot', 'psd_microporous', 'initial_henry')}
     for name, iso0 in isos.items():
         for entry in single:
+            if name in SYN and not entry.startswith(SYN[name]):
+                continue   # a synthetic isotherm is analysed by the routines of its own kind (BET on exact Langmuir data is a tie-break lottery)
             if tier == 'quick' and entry in ('psd_dft', 'initial_henry_virial', 'initial_henry_slope') and name in ('NaY', 'UiO-66(Zr)', 'syn-langmuir'):
                 continue   # the slow routines on a subset in the quick tier
             oc0, base = run_entry(entry, clone(iso0))
@@ -325,13 +377,17 @@ def metamorphic(rep, tier, seed, isos):
                     j = int(np.argmax(np.abs(b0.data_raw[b0.pressure_key].values)))
                     pfac = v0.data_raw[v0.pressure_key].values[j] / b0.data_raw[b0.pressure_key].values[j]
                     want = base['value'] * lfac / pfac
+                    info['lfac'], info['pfac'] = float(lfac), float(pfac)
                     if not abs(var['value'] - want) <= 1e-4 * abs(want):
-                        tag = 'C15:henry-slope-absolute-rmse-threshold' if entry == 'initial_henry_slope' and abs(lfac - 1) > 1e-9 else classify(entry, 'henry-factor', info)
+                        tag = classify(entry, 'henry-factor', info)
                         rep.failure(tag, '%s(%s): %r in the stored units, %r after conversion to %s; the unit factors give %r' % (entry, name, base['value'], var['value'], (rp, rl, tu), want), info)
                     else:
                         nontrivial.add((entry, name, rp, rl))
                     continue
                 d = differ(entry, base, var)
+                if d and entry == 'psd_dft':
+                    info['inputs_agree'] = not any(k.startswith('/acquired') for k, _ in d) and \
+                        np.allclose(var['acquired_pressure'], base['acquired_pressure'], rtol=1e-9, atol=0) and np.allclose(var['acquired_loading'], base['acquired_loading'], rtol=1e-9, atol=0)
                 if d:
                     rep.failure(classify(entry, 'representation', info), '%s(%s) changes after conversion to %s: %s' % (entry, name, (rp, rl, tu), d[:3]), info)
                 else:
@@ -345,15 +401,18 @@ def metamorphic(rep, tier, seed, isos):
                     rep.failure(classify(entry, 'scaling', info), '%s(%s) raises %s when all loadings are multiplied by %g' % (entry, name, oc, c), info)
                     continue
                 d = differ(entry, base, var, factor=c)
+                info['lfac'] = c
+                if d and entry == 'psd_dft':
+                    info['inputs_agree'] = np.allclose(var['acquired_pressure'], base['acquired_pressure'], rtol=1e-9, atol=0) and \
+                        np.allclose(var['acquired_loading'], c * base['acquired_loading'], rtol=1e-9, atol=0)
                 if d:
-                    tag = 'C15:henry-slope-absolute-rmse-threshold' if entry == 'initial_henry_slope' else classify(entry, 'scaling', info)
-                    rep.failure(tag, '%s(%s): loadings x %g: %s' % (entry, name, c, d[:3]), info)
+                    rep.failure(classify(entry, 'scaling', info), '%s(%s): loadings x %g: %s' % (entry, name, c, d[:3]), info)
                 else:
                     nontrivial.add((entry, name, 'scale', c))
     # ---- alpha_s: sample and reference
     ref0 = convert(isos['SiO2'], ('relative', None))        # a reference the routine can read: relative mode, mmol/g
-    for sname in ('MCM-41', 'Takeda 5A') if tier == 'quick' else [n for n in isos if n != 'SiO2']:
-        s0 = convert(isos[sname], ('relative', None))
+    samples = {n: alphas_sample(isos[n], ref0) for n in (('MCM-41', 'Takeda 5A') if tier == 'quick' else [n for n in isos if n != 'SiO2'])}
+    for sname, s0 in samples.items():
         oc0, base = run_entry('alpha_s', s0, ref0)
         n_eval += 1
         note('alpha_s', 'baseline', oc0)
@@ -361,7 +420,7 @@ def metamorphic(rep, tier, seed, isos):
             continue
         for rp, rl, tu in variants():
             for kind in ('sample', 'reference'):
-                s = convert(isos[sname], rp, rl, tu) if kind == 'sample' else s0
+                s = convert(s0, rp, rl, tu) if kind == 'sample' else s0
                 r = convert(isos['SiO2'], rp, rl, tu) if kind == 'reference' else ref0
                 oc, var = run_entry('alpha_s', s, r)
                 n_eval += 1
@@ -483,12 +542,12 @@ def replay(d):
     iso0 = isos[r['isotherm']]
     if entry == 'alpha_s':
         ref0 = convert(isos['SiO2'], ('relative', None))
-        s0 = convert(iso0, ('relative', None))
+        s0 = alphas_sample(iso0, ref0)
         oc0, base = run_entry(entry, s0, ref0)
         if r['kind'] == 'scaling':
             oc, var = run_entry(entry, clone(s0, scale=r['factor']), ref0)
         elif r['kind'] == 'sample':
-            oc, var = run_entry(entry, convert(iso0, tuple(r['rp']), tuple(r['rl']), r['tu']), ref0)
+            oc, var = run_entry(entry, convert(s0, tuple(r['rp']), tuple(r['rl']), r['tu']), ref0)
         else:
             oc, var = run_entry(entry, s0, convert(isos['SiO2'], tuple(r['rp']), tuple(r['rl']), r['tu']))
     else:
